@@ -119,4 +119,122 @@ MUTANTS = [
     {"id": "c06-map-key-msg-drops-key", "props": ["C06"], "edits": [(IMPLS, 'msg: format!("the key \\"{string_key}\\" could not be deserialized into the key type `{}`",\n                                    std::any::type_name::<Key>())',
                                                                      'msg: format!("a key could not be deserialized into the key type `{}`",\n                                    std::any::type_name::<Key>())')]},
     {"id": "c06-set-skip-first", "props": ["C06"], "occurrence": 1, "edits": [(IMPLS, "for (index, value) in seq.into_iter().enumerate() {", "for (index, value) in seq.into_iter().enumerate().skip(1) {")]},
+    # ------------------------------------------------------------------ C07
+    {"id": "c07-sort-skipped-first", "props": ["C07"], "edits": [(PT, "fields_extra.sort_by_key(|x| x.1.skipped);", "fields_extra.sort_by_key(|x| !x.1.skipped);")]},
+    {"id": "c07-rename-all-beats-rename", "props": ["C07"], "edits": [(PT, """    match rename {
+        Some(name) => name.to_string(),
+        None => match rename_all {
+            Some(RenameAll::CamelCase) => ident.to_case(Case::Camel),
+            Some(RenameAll::LowerCase) => ident.to_lowercase(),
+            None => ident,
+        },
+    }""", """    match rename_all {
+        Some(RenameAll::CamelCase) => ident.to_case(Case::Camel),
+        Some(RenameAll::LowerCase) => ident.to_lowercase(),
+        None => match rename {
+            Some(name) => name.to_string(),
+            None => ident,
+        },
+    }""")]},
+    {"id": "c07-merge-variant-or", "props": ["C07"], "edits": [(AP, "        self.rename_all = other.rename_all.clone();", "        self.rename_all = other.rename_all.clone().or(self.rename_all.clone());")]},
+    {"id": "c07-pascal", "props": ["C07"], "edits": [(PT, "ident.to_case(Case::Camel)", "ident.to_case(Case::Pascal)")]},
+    {"id": "c07-lowercase-is-identity", "props": ["C07"], "edits": [(PT, "Some(RenameAll::LowerCase) => ident.to_lowercase(),", "Some(RenameAll::LowerCase) => ident,")]},
+    {"id": "c07-case-insensitive-keys", "props": ["C07"], "edits": [(NF, "            match deserr_key__.as_str() {", "            match deserr_key__.to_lowercase().as_str() {")]},
+    # ------------------------------------------------------------------ C08
+    {"id": "c08-missing-on-error-path", "props": ["C08"], "edits": [(NF, "                                    ::deserr::FieldState::Err\n                                }\n                            };", "                                    ::deserr::FieldState::Missing\n                                }\n                            };")]},
+    {"id": "c08-skip-uses-missing", "props": ["C08"], "edits": [(PT, """            } else if attrs.skipped {
+                quote! { ::deserr::FieldState::Some(::std::default::Default::default()) }""", """            } else if attrs.skipped && false {
+                quote! { ::deserr::FieldState::Some(::std::default::Default::default()) }""")],
+     "note": "skipped field without default starts Missing -> unwrap panics on every input"},
+    {"id": "c08-missing-fn-gets-ident", "props": ["C08"], "edits": [(PT, "                        let deserr_e__ = #error_function ( #key_name, deserr_location__ ) ;", "                        let deserr_e__ = #error_function ( stringify!(#field_name), deserr_location__ ) ;")]},
+    {"id": "c08-default-expr-ignored", "props": ["C08"], "edits": [(PT, "                        quote! { ::deserr::FieldState::Some(#expr) }", "                        quote! { { let _ = || #expr; ::deserr::FieldState::Some(::std::default::Default::default()) } }")]},
+    {"id": "c08-missing-reports-ident", "props": ["C08"], "edits": [(PT, """                            ::deserr::ErrorKind::MissingField {
+                                field: #key_name,
+                            },""", """                            ::deserr::ErrorKind::MissingField {
+                                field: stringify!(#field_name),
+                            },""")]},
+    # ------------------------------------------------------------------ C09
+    {"id": "c09-accepted-sorted", "props": ["C09"], "edits": [(PT, """        let unknown_key = match &data_attrs.deny_unknown_fields {""", """        let key_names = { let mut k = key_names.clone(); k.sort(); k };
+        let unknown_key = match &data_attrs.deny_unknown_fields {""")]},
+    {"id": "c09-deny-ignored-in-variants", "props": ["C09"], "edits": [(AP, "        self.rename_all = other.rename_all.clone();", "        self.rename_all = other.rename_all.clone();\n        self.deny_unknown_fields = None;")]},
+    {"id": "c09-unknown-once", "props": ["C09", "C02"], "edits": [(NF, """                deserr_key__ => {
+                    #unknown_key
+                }""", """                deserr_key__ => {
+                    if deserr_error__.is_none() {
+                        #unknown_key
+                    }
+                }""")]},
+    {"id": "c09-ignored-key-sets-error", "props": ["C09"], "edits": [(PT, "            None => quote! {},\n        };\n\n        Ok(Self {", """            None => quote! { if deserr_key__.starts_with("__") { return ::std::result::Result::Err(::deserr::take_cf_content(<#err_ty as ::deserr::DeserializeError>::error::<V>(deserr_error__, ::deserr::ErrorKind::Unexpected { msg: ::std::string::String::new() }, deserr_location__))); } },
+        };
+
+        Ok(Self {""")]},
+    # ------------------------------------------------------------------ C10
+    {"id": "c10-tag-case-insensitive", "props": ["C10"], "edits": [(DE, "                        match tag_value_string.as_str() {", "                        match tag_value_string.to_lowercase().as_str() {")]},
+    {"id": "c10-variant-name-before-rename", "props": ["C10"], "edits": [(PT, """                        let key_name = key_name_for_ident(
+                            variant.ident.to_string(),
+                            attrs.rename_all.as_ref(),
+                            renamed.as_deref(),
+                        );""", """                        let key_name = key_name_for_ident(
+                            variant.ident.to_string(),
+                            attrs.rename_all.as_ref(),
+                            None,
+                        );
+                        let _ = &renamed;""")]},
+    {"id": "c10-unknown-falls-to-first", "props": ["C10"], "edits": [(DE, """                            _ => {
+                                ::std::result::Result::Err(
+                                    ::deserr::take_cf_content(<#err_ty as ::deserr::DeserializeError>::error::<V>(
+                                        None,
+                                        // TODO""", """                            "" => {
+                                ::std::result::Result::Err(
+                                    ::deserr::take_cf_content(<#err_ty as ::deserr::DeserializeError>::error::<V>(
+                                        None,
+                                        // TODO""")],
+     "note": "does not compile (non-exhaustive) unless a catch-all exists; kept out of the default run", "skip": True},
+    {"id": "c10-unit-accepted-idents", "props": ["C10"], "edits": [(DE, "        .map(|v| &v.key_name)\n        .map(|v| quote!(#v, ))", "        .map(|v| v.ident.to_string())\n        .map(|v| quote!(#v, ))")]},
+    # ------------------------------------------------------------------ C11
+    {"id": "c11-validate-merge-at-key", "props": ["C11", "C04"], "edits": [(PT, """                            None,
+                            validate_error__,
+                            deserr_location__
+                        )""", """                            None,
+                            validate_error__,
+                            deserr_location__.push_key("validate")
+                        )""")]},
+    {"id": "c11-tryfrom-only-field-error", "props": ["C11", "C01"], "edits": [(PT, """                                deserr_error__ = match <#err_ty as ::deserr::MergeWithError<_>>::merge(
+                                    deserr_error__,
+                                    tmp_deserr_error__,
+                                    deserr_location__.push_key(deserr_key__.as_str())
+                                ) {
+                                    ::std::ops::ControlFlow::Continue(e) => ::std::option::Option::Some(e),
+                                    ::std::ops::ControlFlow::Break(e) => return ::std::result::Result::Err(e),
+                                };
+                                ::deserr::FieldState::Err""", """                                let _ = tmp_deserr_error__;
+                                ::deserr::FieldState::Err""")]},
+    {"id": "c11-byref-ignored", "props": ["C11"], "edits": [(PT, """                    let fun_call = if from.is_ref {
+                        quote! { |val: #field_ty | #fun(&val) }
+                    } else {
+                        quote! { #fun }
+                    };
+
+                    quote!(::deserr::FieldState::Some((#fun_call)(x)))""", """                    let fun_call = if from.is_ref {
+                        quote! { |val: #field_ty | #fun(&val.clone()) }
+                    } else {
+                        quote! { #fun }
+                    };
+
+                    quote!(::deserr::FieldState::Some((#fun_call)(x)))""")],
+     "skip": True, "note": "clone() needs Clone on the intermediate type; behaviour-preserving anyway"},
+    {"id": "c11-map-identity", "props": ["C11"], "edits": [(PT, """                Some(func) => {
+                    quote! {
+                        #func
+                    }
+                }""", """                Some(func) => {
+                    let _ = func;
+                    quote! { ::std::convert::identity }
+                }""")]},
+    {"id": "c11-validate-skipped", "props": ["C11"], "edits": [(PT, """        let validate = if let Some(validate_func) = attrs.validate {""", """        let validate = if let (Some(validate_func), false) = (attrs.validate, attrs.deny_unknown_fields.is_some()) {""")]},
+    {"id": "c11-container-from-wrong-type", "props": ["C11"], "edits": [("derive/src/derive_user_provided_function.rs", """                let deserr_from__ = <#from_ty as ::deserr::Deserr<#err_ty>>::deserialize_from_value(deserr_value__, deserr_location__)?;
+                // then apply the function to it
+                let deserr_final__ = #function_call;""", """                let deserr_from__ = <#from_ty as ::deserr::Deserr<#err_ty>>::deserialize_from_value(deserr_value__, deserr_location__.push_index(0))?;
+                // then apply the function to it
+                let deserr_final__ = #function_call;""")]},
 ]
